@@ -42,6 +42,11 @@ func runC10(o opts) error {
 		for i := 0; i < n/40; i++ {
 			scns = append(scns, c10.GenSpin(rng2))
 		}
+		// Suspend beside a full event queue: again a generator of its own
+		rng3 := rand.New(rand.NewSource(o.seed*104729 + 3))
+		for i := 0; i < n/20; i++ {
+			scns = append(scns, c10.GenSuspend(rng3))
+		}
 	}
 	sink, err := trace.NewSink(o.out, o.shards)
 	if err != nil {
@@ -79,8 +84,11 @@ func runC10(o opts) error {
 		if r.Queries == nil {
 			r.Queries = []c10.QObs{}
 		}
+		if r.SLeaked == nil {
+			r.SLeaked = []string{}
+		}
 		ev := trace.Ev{"ev": "run", "returned": r.Returned, "what": r.What, "leaked": r.Leaked, "stuck": r.Stuck,
-			"orders": r.Orders, "bsent": r.BSent, "bgot": r.BGot, "panic": r.Panic, "race": r.Race, "rwant": r.RWant, "rgot": r.RGot, "queries": r.Queries, "end": sc.End}
+			"orders": r.Orders, "bsent": r.BSent, "bgot": r.BGot, "panic": r.Panic, "race": r.Race, "rwant": r.RWant, "rgot": r.RGot, "queries": r.Queries, "sleaked": r.SLeaked, "end": sc.End}
 		sink.Put(&trace.Scenario{Ord: i, Desc: sc, Note: r.Panic + r.Race + r.What, Sig: sc.Kind, Events: []trace.Ev{{"ev": "reset"}, ev}})
 	}
 	return sink.Close()
